@@ -181,11 +181,10 @@ func (c *client) setLastPongAt(t time.Time) {
 func (c *client) dial(ctx context.Context, dialer DialConnFunc) (err error) {
 	c.Lock()
 	defer c.Unlock()
-	// a closed client makes no connection attempt. The test is made under
-	// the lock that Close takes (shared) after closing closeCh: a Close that
-	// has returned is seen here, and a Close that comes later waits for this
-	// attempt and then closes the conn it installed. The reconnect loop's
-	// own test lies several statements (and log calls) before the dial.
+	// a closed client makes no connection attempt: a Close that has returned
+	// is seen here (the reconnect loop's own test lies several statements and
+	// log calls before the dial); one that comes during the attempt is seen
+	// by the test at the end.
 	select {
 	case <-c.closeCh:
 		return errConnClosed
@@ -207,6 +206,16 @@ func (c *client) dial(ctx context.Context, dialer DialConnFunc) (err error) {
 	c.conn.OnPacket(c.onPacket)
 	verifhook.Point("dial.before-onclose")
 	c.conn.OnClose(c.onConnClose)
+
+	// Close does not wait for the client lock. It closes closeCh first and
+	// then the current conn: either it already saw this conn, or its closeCh
+	// is seen here
+	select {
+	case <-c.closeCh:
+		conn.Close(errors.New("close by client"))
+		return errConnClosed
+	default:
+	}
 
 	return nil
 }
@@ -562,11 +571,14 @@ func (c *client) Close(err error) error {
 	c.closeOnce.Do(func() {
 		c.Logger.Info("close client")
 		close(c.closeCh)
-		c.RLock()
-		if c.conn != nil {
-			c.conn.Close(errors.New("close by client"))
+		// reach the conn through the state mutex, not the client lock: a call
+		// in flight holds that lock (shared) until it returns, a recovery
+		// queueing for it (exclusively) after a loss holds back new readers,
+		// and Close then waited for the call's whole request timeout. dial()
+		// closes a conn it installs after closeCh was closed, so none is missed.
+		if conn := c.currentConn(); conn != nil {
+			conn.Close(errors.New("close by client"))
 		}
-		c.RUnlock()
 		if c.onClose != nil {
 			c.onClose(err)
 		}
